@@ -99,6 +99,18 @@ def int_methods(C):
     return t
 
 
+def key_present(p, name, present, exc='KeyError'):
+    """A lookup that raises `exc` when the key / index is absent (A-EXC).  Outside a handler for `exc` the presence is an obligation
+    (`name`: the exception must be proved impossible).  Inside the try suite of a handler the absence is ordinary control flow: the
+    obligation reads "present, or the exception is caught by the code" (trivially true there), the path splits, and the absent case
+    raises into the handler -- `if k in d: use(d[k])` and `try: v = d[k] except KeyError: ... else: use(v)` are the same program."""
+    from pyvc.engine import PyRaise
+    caught = p.interp.catches(exc)
+    p.oblige(name, 'key', Or(present, BoolVal(True)) if caught else present)
+    if caught and not p.branch(present):
+        raise PyRaise(exc)
+
+
 def builtins():
     def _isinstance(p, args, kw):
         v, cls = args
